@@ -12,6 +12,7 @@ import Driver.Config
 import Driver.Rank
 import Driver.RankConc
 import Driver.XsCtx
+import Driver.XsLife
 import Driver.X86
 import Driver.MemPool
 import Driver.MemOwner
@@ -53,6 +54,7 @@ def main (args : List String) : IO UInt32 := do
   | ["rank"] => Driver.Rank.main; return 0
   | ["rankconc"] => Driver.RankConc.main; return 0
   | ["xsctx"] => Driver.XsCtx.main; return 0
+  | ["xslife"] => Driver.XsLife.main; return 0
   | ["x86"] => Driver.X86.main; return 0
   | ["mempool"] => Driver.MemPool.main; return 0
   | ["stackgeom"] => Driver.StackGeom.main; return 0
